@@ -908,7 +908,7 @@ void NewPage(ShortInt Level, Boolean WithFF) {
 
 void WrLstLine(char const* Line) {
     int    LLength;
-    char   bbuf[2500];
+    char*  bbuf = NULL;
     String LLine;
     int    blen = 0, hlen, z, Start;
 
@@ -924,6 +924,10 @@ void WrLstLine(char const* Line) {
         if ((PageWidth == 0) || ((strlen(Line) << 3) < PageWidth)) {
             LLength = 1;
         } else {
+            /* source lines have no fixed maximum length; a tab expands to
+               at most eight blanks */
+
+            bbuf = (char*)malloc((strlen(Line) << 3) + 1);
             blen = 0;
             for (z = 0; z < (int)strlen(Line); z++) {
                 if (Line[z] == Char_HT) {
@@ -961,6 +965,9 @@ void WrLstLine(char const* Line) {
                 }
                 Start += hlen;
             }
+        }
+        if (bbuf) {
+            free(bbuf);
         }
     }
 }
